@@ -428,7 +428,7 @@ Proof.
   { unfold C11_sq_grad, C11_resid, mv, C11_wm_A, C11_wm_b, C11_wm_q, C11_wm_x. cbn [sumn Nat.eqb]. unfold two, C11_two. ring. }
   assert (G1 : C11_sq_grad F 2 2 C11_wm_A C11_wm_b C11_wm_q C11_wm_x 1%nat = - (1)).
   { unfold C11_sq_grad, C11_resid, mv, C11_wm_A, C11_wm_b, C11_wm_q, C11_wm_x. cbn [sumn Nat.eqb].
-    fold half. transitivity (C11_two F * (half - 1)); [ring|]. unfold C11_two. rewrite <- C11_wm_half2. ring. }
+    fold half. transitivity (C11_two F * (half - 1)); [ring|]. transitivity ((half + half) - 1 - 1); [unfold C11_two; ring|]. rewrite C11_wm_half2. ring. }
   assert (E : kleb F 0 (vsub C11_wm_x (C11_vdiv F (C11_sq_grad F 2 2 C11_wm_A C11_wm_b C11_wm_q C11_wm_x) 1) 0%nat) = false).
   { unfold vsub, C11_vdiv. rewrite G0. cbn [C11_wm_x]. destruct (kleb F 0 (0 - two / 1)) eqn:K; [|reflexivity].
     exfalso. apply k_leb in K. apply (not_le_0_m1 F).
@@ -439,14 +439,15 @@ Proof.
   destruct i as [|[|i]]; [| |lia].
   - cbn [C11_wm_x]. ring.
   - unfold vsub, C11_vdiv. rewrite G0, G1. cbn [C11_wm_x]. fold half.
-    transitivity (half * (two / 1) * (1 - (half + half)) ); [unfold two, C11_two; field; apply one_neq_zero|].
+    transitivity (1 - (half + half)); [unfold two, C11_two; field; apply one_neq_zero|].
     rewrite C11_wm_half2. ring. Qed.
 Lemma C11_wm_not_optimal :
   ~ (C11_sq_loss F 2 2 C11_wm_A C11_wm_b C11_wm_q C11_wm_x <= C11_sq_loss F 2 2 C11_wm_A C11_wm_b C11_wm_q C11_wm_z).
 Proof. intros H.
   assert (E1 : C11_sq_loss F 2 2 C11_wm_A C11_wm_b C11_wm_q C11_wm_x = 1 + half * half).
   { unfold C11_sq_loss, C11_nrm2, dot, C11_resid, mv, C11_wm_A, C11_wm_b, C11_wm_q, C11_wm_x. cbn [sumn Nat.eqb]. fold half.
-    transitivity (1 + (half - 1) * (half - 1)); [ring|]. rewrite <- C11_wm_half2 at 2 4. ring. }
+    transitivity (1 + (half - 1) * (half - 1)); [ring|].
+    transitivity (1 + (half - (half + half)) * (half - (half + half))); [rewrite C11_wm_half2; ring|ring]. }
   assert (E2 : C11_sq_loss F 2 2 C11_wm_A C11_wm_b C11_wm_q C11_wm_z = 1).
   { unfold C11_sq_loss, C11_nrm2, dot, C11_resid, mv, C11_wm_A, C11_wm_b, C11_wm_q, C11_wm_z. cbn [sumn Nat.eqb]. ring. }
   rewrite E1, E2 in H. apply (proj1 (le_sub F _ _)) in H. replace (1 - (1 + half * half)) with (- (half * half)) in H by ring.
